@@ -76,6 +76,9 @@ pub struct Net {
     /// test hook: called by `poll_accept_bidi` before it looks at the queue; `Some(e)` makes the
     /// call fail with `e` (used by the C05 engine to stop the driver inside the transport)
     pub accept_bidi_gate: Option<Box<dyn FnMut() -> Option<ConnectionErrorIncoming>>>,
+    /// cfg `ev=1`: what h3 does on the transport is also logged, in order, into the scenario trace
+    /// (`w<sid>:<hex>` bytes accepted, `fin<sid>`, `rst<sid>:<code>`, `stop<sid>:<code>`, `close:<code>`)
+    pub events: Option<Rc<RefCell<Vec<String>>>>,
 }
 pub type NetRef = Rc<RefCell<Net>>;
 
@@ -175,6 +178,11 @@ impl Net {
         self.dgram_rx.push_back(b);
         wake(&mut self.dgram_rx_waker);
     }
+    pub fn event(&self, e: String) {
+        if let Some(t) = &self.events {
+            t.borrow_mut().push(e);
+        }
+    }
     pub fn tx(&self, id: u64) -> Vec<u8> {
         self.streams.get(&id).map(|s| s.tx.clone()).unwrap_or_default()
     }
@@ -230,7 +238,9 @@ fn open(net: &NetRef, bidi: bool, cx: &mut Context<'_>) -> Poll<Result<SimStream
 }
 
 fn do_close(net: &NetRef, code: h3::error::Code, reason: &[u8]) {
-    net.borrow_mut().closed.push((code.value(), reason.to_vec()));
+    let mut n = net.borrow_mut();
+    n.closed.push((code.value(), reason.to_vec()));
+    n.event(format!("close:{}", code.value()));
 }
 
 impl quic::OpenStreams<Bytes> for SimConn {
@@ -340,6 +350,7 @@ impl quic::RecvStream for SimStream {
     }
     fn stop_sending(&mut self, code: u64) {
         let mut n = self.net.borrow_mut();
+        n.event(format!("stop{}:{}", self.id, code));
         let s = n.streams.get_mut(&self.id).expect("stream");
         s.stop_sending.get_or_insert(code);
         s.stop_sending_calls += 1;
@@ -354,6 +365,7 @@ impl quic::SendStream<Bytes> for SimStream {
             return Poll::Ready(Err(StreamErrorIncoming::ConnectionErrorIncoming { connection_error: e }));
         }
         let mut n = self.net.borrow_mut();
+        let events = n.events.clone();
         let s = n.streams.get_mut(&self.id).expect("stream");
         if let Some(c) = s.peer_stopped {
             s.writing = None;
@@ -371,6 +383,9 @@ impl quic::SendStream<Bytes> for SimStream {
                     s.tx_misuse = true;
                 }
                 s.tx.extend_from_slice(&c[..k]);
+                if let Some(t) = &events {
+                    t.borrow_mut().push(format!("w{}:{}", self.id, crate::util::to_hex(&c[..k])));
+                }
                 s.accepted.push(k);
                 if s.tx_credit != UNLIMITED {
                     s.tx_credit -= k;
@@ -398,12 +413,14 @@ impl quic::SendStream<Bytes> for SimStream {
             return Poll::Ready(Err(StreamErrorIncoming::ConnectionErrorIncoming { connection_error: e }));
         }
         let mut n = self.net.borrow_mut();
+        n.event(format!("fin{}", self.id));
         let s = n.streams.get_mut(&self.id).expect("stream");
         s.tx_fin = true;
         Poll::Ready(Ok(()))
     }
     fn reset(&mut self, code: u64) {
         let mut n = self.net.borrow_mut();
+        n.event(format!("rst{}:{}", self.id, code));
         let s = n.streams.get_mut(&self.id).expect("stream");
         s.tx_reset.get_or_insert(code);
     }
